@@ -122,6 +122,29 @@ func (g *Gen) concOp(c string, gi int) E {
 		}
 		return bs
 	}
+	if g.chance(0.18) { // the less common operations
+		id := g.pick(g.ids)
+		switch g.r.Intn(9) {
+		case 0:
+			return E{"op": "ReplaceById", "c": c, "id": B(id), "docs": []interface{}{g.doc(AStr(id))}}
+		case 1:
+			return E{"op": "Save", "c": c, "docs": []interface{}{g.doc(AStr(id))}}
+		case 2:
+			return E{"op": "FindById", "c": c, "id": B(id)}
+		case 3:
+			return E{"op": "ListIndexes", "c": c}
+		case 4:
+			return E{"op": "HasIndex", "c": c, "f": B(g.pick([]string{"x", "xy"}))}
+		case 5:
+			return E{"op": "Exists", "c": c, "q": noWindow()}
+		case 6:
+			return E{"op": "FindFirst", "c": c, "q": noWindow()}
+		case 7:
+			return E{"op": "ForEach", "c": c, "q": noWindow(), "j": g.r.Intn(3)}
+		default:
+			return E{"op": "ListCollections"}
+		}
+	}
 	switch {
 	case k < 22:
 		n := 1 + g.r.Intn(3)
